@@ -11,8 +11,12 @@ ELEMS = [b"a", b"b", b"c", b"a", b"", b"\r\n", b"x" * 70, b"1", b"-1"]
 FIELDS = [b"f1", b"f2", b"f3", b"", b"\xff"]
 PATTERNS = [b"*", b"k*", b"k?", b"[kl]*", b"?", b"*1", b"k[1-2]", b"\\k1", b"miss", b"", b"k[^1]", b"**", b"*\x00",
             # patterns whose match needs the star to be extended after a partial match of what follows it
-            b"*ab", b"*ssip*", b"a*b*b", b"*foo", b"*b\xffz", b"x*oo", b"*a?b", b"*[a-b]b"]
-GLOB_KEYS = [b"aab", b"abab", b"mississippi", b"xfofoo", b"b\xff\xffz", b"axb"]
+            b"*ab", b"*ssip*", b"a*b*b", b"*foo", b"*b\xffz", b"x*oo", b"*a?b", b"*[a-b]b",
+            # literal-star-literal where the text after the star overlaps the tail of the text before it: a matcher that
+            # lets the star give back characters the prefix already consumed reports FALSE POSITIVES (pattern needs more text than there is)
+            b"ab*bX", b"user:*:x", b"*sess*sion", b"aa*a", b"a*a", b"ab*ab", b"x?*?x", b"k*k1", b"[a]b*b"]
+GLOB_KEYS = [b"aab", b"abab", b"mississippi", b"xfofoo", b"b\xff\xffz", b"axb",
+             b"abX", b"abbX", b"user:x", b"user::x", b"session", b"sesssion", b"aa", b"aaa", b"a", b"ab", b"abab", b"xax", b"xx", b"k1", b"kk1"]
 TTLS = [b"100", b"1000", b"100000"]
 
 
@@ -37,6 +41,8 @@ def string_corpus():
         # the option combinations of SET select different storage functions (set_string_ex / set_string_nx_ex / …)
         for flag, pre in ((b"NX", []), (b"NX", [[b"SET", b"k1", b"10"]]), (b"XX", []), (b"XX", [[b"SET", b"k1", b"10"]])):
             out.append(("arg-num-text-set-flags", pre + [[b"SET", b"k1", b"w", b"EX", v, flag], [b"GET", b"k1"], [b"TTL", b"k1"], [b"PERSIST", b"k1"]]))
+    # every pattern against every glob key, in one store
+    out.append(("glob-grid", [[b"SET", k, b"g"] for k in GLOB_KEYS + KEYS[:3]] + [[b"KEYS", p] for p in PATTERNS]))
     return out
 
 
